@@ -44,6 +44,21 @@ class Spy:
         return 'spy%d' % object.__getattribute__(self, '_oid')
 
 
+class SpyMap(Spy):
+    """a record-like client: attributes AND keys (as ZSQL result rows, dict subclasses …); a key is not an attribute"""
+
+    def __init__(self, oid, log, keys, **attrs):
+        Spy.__init__(self, oid, log, **attrs)
+        object.__setattr__(self, '_keys', dict(keys))
+
+    def __getitem__(self, k):
+        object.__getattribute__(self, '_log').append(('read-item', object.__getattribute__(self, '_oid'), k))
+        return object.__getattribute__(self, '_keys')[k]
+
+    def keys(self):
+        return list(object.__getattribute__(self, '_keys'))
+
+
 def guarded_class(log, denied, denied_items):
     from DocumentTemplate import HTML
     from zExceptions import Unauthorized
@@ -113,6 +128,20 @@ def channels():
                         lambda log, m, n: (None, {'o': Spy(1, log, secretm=(lambda: m))}, {(1, 'secretm')}, set()), None)
     ch['getattr-function'] = ('[' + T % '<dtml-var "_.getattr(o, \'secret\')">' + ']',
                               lambda log, m, n: (None, {'o': objs(log, m)}, {(1, 'secret')}, set()), 'C05-underscore-getattr')
+    # record-like clients used as instances: a KEY that is not an attribute is not visible through them at all
+    ch['with-record-key'] = ('<dtml-with o>[<dtml-var secret missing="M">|<dtml-var pub>]</dtml-with>',
+                             lambda log, m, n: (None, {'o': SpyMap(1, log, {'secret': m}, pub='p1')}, set(), set()), None)
+    ch['in-record-key'] = ('<dtml-in l>[<dtml-var secret missing="M">|<dtml-var pub>]</dtml-in>',
+                           lambda log, m, n: (None, {'l': [SpyMap(1, log, {'secret': m}, pub='p1'), SpyMap(3, log, {'secret': n}, pub='p3')]}, set(), set()), None)
+    ch['client-record-key'] = ('[<dtml-var secret missing="M">|<dtml-var pub>|<dtml-if secret>Y<dtml-else>N</dtml-if>]',
+                               lambda log, m, n: (SpyMap(1, log, {'secret': m}, pub='p1'), {}, set(), set()), None)
+    # the guards survive dtml-with … only — also the item guard of a loop inside it
+    ch['with-only-in-refused'] = (T % '<dtml-with o only><dtml-in things>[<dtml-var pub>]</dtml-in></dtml-with>',
+                                  lambda log, m, n: (None, {'o': Spy(9, log, things=[Spy(4, log, pub='ok'), Spy(1, log, pub=m)])}, set(), {1}), None)
+    ch['with-only-in-skip'] = ('<dtml-with o only><dtml-in things skip_unauthorized>[<dtml-var pub>]</dtml-in></dtml-with>',
+                               lambda log, m, n: (None, {'o': Spy(9, log, things=[Spy(1, log, pub=m), Spy(4, log, pub='ok'), Spy(6, log, pub=n)])}, set(), {1, 6}), None)
+    ch['with-only-nested-in-skip'] = ('<dtml-with o only><dtml-with p only><dtml-in things skip_unauthorized>[<dtml-var pub>]</dtml-in></dtml-with></dtml-with>',
+                                      lambda log, m, n: (None, {'o': Spy(9, log, p=Spy(8, log, things=[Spy(1, log, pub=m), Spy(4, log, pub='ok')]))}, set(), {1}), None)
     # the channels the code reads with plain getattr / a different item guard: known findings
     ch['sequence-var'] = ('<dtml-in l>[' + T % '<dtml-var sequence-var-secret>' + ']</dtml-in>',
                           lambda log, m, n: (None, {'l': [objs(log, m)]}, {(1, 'secret')}, set()), 'C05-sequence-var')
@@ -170,6 +199,8 @@ def part_a(res):
                 # asked for everything that is read (whether the refused value then matters is the marker comparison above)
                 if ev[0] == 'read' and (ev[1], ev[2]) not in asked:
                     problems.append(('unguarded-read:' + ev[2], 'attribute %r of object %d was read without the guard ever being asked' % (ev[2], ev[1])))
+                if ev[0] == 'read-item':
+                    problems.append(('unguarded-item', 'key %r of the record-like object %d was read as an item (no guard mediates that read)' % (ev[2], ev[1])))
             break
         # reading the sort key of every element with plain getattr is the known finding C05-sort-key, whatever else the channel tests
         if 'sort' in src:
@@ -301,7 +332,7 @@ def part_c(res, r, n, have_driver):
 
 def run(res, tier, have_driver):
     r = common.rng('C05')
-    res.rule = ('A: 31 channels (incl. sorted / reversed / batched loops) x {fresh, after an unguarded rendering of the same compiled template} x 4 marker assignments (incl. empty / order-changing markers) with spied client objects and a '
+    res.rule = ('A: 37 channels (incl. sorted / reversed / batched loops) x {fresh, after an unguarded rendering of the same compiled template} x 4 marker assignments (incl. empty / order-changing markers) with spied client objects and a '
                 'recording guard; B: underscore names through 4 lookup forms x {plain, guarded} class and 5 restricted expressions; '
                 'C: random programs (all block tags, nesting <= 3) with the guard installed, random refused (object, attribute) pairs, '
                 'refused items and skip_unauthorized: results + call traces + ordered guard log vs the model; non-trivial = '
